@@ -22,6 +22,8 @@ def reasm(prop,extra_quick=(),extra_thorough=()):
         jobs.append(job(f"api-k4-mif{mif}",".","VH_Reassembler",[prop+"/"],{"k":4,"maxInFlight":mif},T,
                     bounds=f"k=4 operations then Close; maxInFlight={mif}"))
     jobs.append(job("api-k3-nilpush",".","VH_Reassembler",[prop+"/"],{"k":3,"maxInFlight":1,"nilpush":1},Q,bounds="k=3 incl. PushMessage(nil); maxInFlight=1"))
+    jobs.append(job("api-k3-mif5",".","VH_Reassembler",[prop+"/"],{"k":3,"maxInFlight":5},Q,bounds="k=3 operations then Close; maxInFlight=5 (nothing leaves by overflow: three events can sit in the buffer at Close)"))
+    jobs.append(job("api-k4-mif5",".","VH_Reassembler",[prop+"/"],{"k":4,"maxInFlight":5},T,bounds="k=4 operations then Close; maxInFlight=5"))
     return {"jobs":jobs,"assumptions":REASM_ASSUME,"outside":REASM_OUT}
 C["C01"]=reasm("C01")
 C["C01"]["jobs"].append(job("push-text-k3",".","VH_ReassemblerPush",["C01/"],{"k":3,"maxInFlight":2},Q,bounds="k=3 records through Push(typ, raw): record type symbolic (all 65536), well-formed text, sequence in {5,6}, then Close; maxInFlight=2"))
@@ -36,7 +38,8 @@ C["C03"]=reasm("C03")
 C["C03"]["jobs"]+= [job("pin-ffffffff",".","VH_Reassembler",["C03/"],{"k":3,"maxInFlight":2,"pin":1},Q,bounds="k=3, first pushed sequence pinned to 0xFFFFFFFF"),
                     job("pin-zero",".","VH_Reassembler",["C03/"],{"k":3,"maxInFlight":2,"pin":2},Q,bounds="k=3, second pushed sequence pinned to 0")]
 C["C10"]=reasm("C10")
-C["C10"]["jobs"]+=[job("api-k3-maxduration",".","VH_Reassembler",["C10/"],{"k":3,"maxInFlight":2,"timeout_mode":6},Q,bounds="k=3 then Close; timeout = the largest time.Duration: nothing leaves the buffer for time"),
+C["C10"]["jobs"]+=[job("api-k2-postclose2",".","VH_Reassembler",["C10/"],{"k":2,"maxInFlight":2,"postclose":2},Q,bounds="k=2 then Close, then 2 more pushes: bound, head rule and delivery-only-for-cause hold for them as before Close"),
+   job("api-k3-maxduration",".","VH_Reassembler",["C10/"],{"k":3,"maxInFlight":2,"timeout_mode":6},Q,bounds="k=3 then Close; timeout = the largest time.Duration: nothing leaves the buffer for time"),
    job("api-k3-250years",".","VH_Reassembler",["C10/"],{"k":3,"maxInFlight":2,"timeout_mode":7},Q,bounds="k=3 then Close; timeout = 250 years"),
    job("clock-k3-2s",".","VH_Reassembler",["C10/"],{"k":3,"maxInFlight":2,"timeout_mode":4,"forcepush":2,"plain":1},Q,clock="sym",bounds="two pushes of SYSCALL records then one free operation, 2s timeout, every time.Now() reading symbolic: an incomplete event in a non-full buffer leaves only once its timeout has elapsed; size bound and head rule as before"),
    job("clock-k3-5ms-anytype",".","VH_Reassembler",["C10/"],{"k":3,"maxInFlight":1,"timeout_mode":3},T,clock="sym",bounds="k=3 free operations, record types symbolic, 5ms timeout, maxInFlight=1, symbolic clock")]
@@ -128,6 +131,8 @@ for i,t in enumerate(TYPES):
     big = t in ("SYSCALL","EXECVE","USER_START","LOGIN")
     c05.append(job(f"body-{t}","auparse","VH_BodyTotal",["C05/"],{"maxlen":6 if big else 5,"type":i},QO,bounds=f"Parse({t}, header + body) for every ASCII body of 0..{6 if big else 5} symbolic bytes, then Data/Tags/ToMapStr twice"))
     c05.append(job(f"body7-{t}","auparse","VH_BodyTotal",["C05/"],{"maxlen":7 if t!="AVC" else 5,"type":i},T,bounds=f"Parse({t}, header + body), body 0..7 symbolic ASCII bytes (AVC: 0..5, its pattern has 14 byte classes)"))
+for tn,tname,ml in [(1,"typename",4),(2,"separator",5),(3,"unknown-number",5)]:
+    c05.append(job(f"line-{tname}","auparse","VH_LineTotal",["C05/"],{"maxlen":ml,"template":tn},Q,bounds=f"ParseLogLine on a full line whose {tname} part is every ASCII string of 0..{ml} symbolic bytes (type=<..> msg=audit(1.000:1): a=b)"))
 c05.append(job("header-window-3","auparse","VH_HeaderBad",["C05/"],{"mode":5,"window":3},Q,bounds="Parse/ParseLogLine on \"audit\" + 0..3 symbolic ASCII bytes + header remainder (delimiters swapped, doubled, missing)"))
 c05.append(job("header-overwrite-2","auparse","VH_HeaderBad",["C05/"],{"mode":6},Q,bounds="a well-formed line with any two header positions overwritten by symbolic ASCII bytes"))
 c05.append(job("bare-header","auparse","VH_BodyTotal",["C05/"],{"maxlen":4,"type":0,"bare":1},Q,bounds="Parse(SYSCALL, \"audit(1.000:1)\" + tail) for every ASCII tail of 0..4 symbolic bytes (no separator after the header)"))
@@ -193,6 +198,13 @@ c12+=[job("execve-2x2","auparse","VH_Execve",["C12/"],{"argc":2,"len":2},Q,bound
       job("execve-1x4","auparse","VH_Execve",["C12/"],{"argc":1,"len":4},T,bounds="EXECVE argc=1, argument 4 symbolic bytes")]
 for f,name in enumerate(["ipv4","ipv6","unix","netlink","other"]):
     c12.append(job("saddr-"+name,"auparse","VH_Saddr",["C12/"],{"family":f,"len":3},Q,bounds={"ipv4":"4 symbolic address bytes, symbolic port","ipv6":"3 symbolic + 13 concrete address bytes, symbolic port (address text through the net.IP.String summary)","unix":"path of 3 symbolic non-NUL bytes, with and without bytes after the terminator","netlink":"10 symbolic bytes, passed through","other":"symbolic family byte not in {1,2,10,16}, passed through"}[name]))
+for L in (54,55,107):
+    c12.append(job(f"saddr-unix-long{L}","auparse","VH_Saddr",["C12/"],{"family":2,"len":2,"longpath":L},Q,bounds=f"unix path of {L} bytes (concrete stem, last 2 bytes symbolic)"))
+c12.append(job("saddr-unix-full108","auparse","VH_Saddr",["C12/"],{"family":2,"len":2,"longpath":108,"noterm":1},Q,bounds="unix path filling all 108 bytes of sun_path, no terminator"))
+for i,k in enumerate(FC):
+    c12.append(job(f"field-{k}-long","auparse","VH_EncodedField",["C12/"],{"case":i,"len":2,"long":200},Q,bounds=f"{k}: value of 200 bytes (concrete stem, last 2 bytes symbolic over 0x01..0xFF), quoted or hex"))
+    c12.append(job(f"field-{k}-long1100","auparse","VH_EncodedField",["C12/"],{"case":i,"len":1,"long":1100},T,bounds=f"{k}: value of 1100 bytes (last byte symbolic)"))
+c12.append(job("execve-2-long","auparse","VH_Execve",["C12/"],{"argc":2,"len":2,"long":300},Q,bounds="EXECVE argc=2, second argument 300 bytes (last 2 symbolic)"))
 c12.append(job("saddr-unix-len5","auparse","VH_Saddr",["C12/"],{"family":2,"len":5},T,bounds="unix path of 5 symbolic bytes"))
 for n in (1,2,3,6):
     c12.append(job(f"plain-len{n}","auparse","VH_PlainField",["C12/"],{"len":n},Q if n<=3 else T,bounds=f"plain key=<v>, v of {n} symbolic printable bytes without blanks/quotes"))
@@ -213,6 +225,9 @@ for i,bn in enumerate(BASES):
         bounds=f"valid rule '{bn}' with one of 16 header words (flags, action, field_count, buflen, mask[0], mask[63], fields/values/fieldflags[0,1,63], values[2]) replaced by a symbolic 32-bit value; allocation cap 65536 elements (a rule that names all 2048 syscalls legitimately prints ~50 KB of text), unwinding cap 3000"))
 for (a,b,name) in [(2,3,"fieldcount-x-buflen"),(10,11,"values1-x-values2"),(6,9,"field0-x-value0"),(10,3,"values1-x-buflen")]:
     c13.append(job(f"decode-pair-{name}","rule","VH_DecodeHostile",["C13/"],{"base":1,"word1":a,"word2":b,"budget_is_violation":1},Q,alloc_cap=65536,loop_cap=3000,bounds=f"syscall rule with two header words symbolic at once: {name}"))
+for rs in (0,1):
+    c13.append(job("decode-field-value"+("-resolve" if rs else ""),"rule","VH_DecodeFieldValue",["C13/"],{"resolve":rs},Q,no_native=bool(rs),expect=["C13/field-value-decoded"],alloc_cap=65536,loop_cap=3000,
+       bounds="one-filter rule with the field word any UAPI field code (or an unknown one), any of the 8 operators and a symbolic 32-bit value word, ToCommandLine with resolveIds=%s%s"%("true" if rs else "false"," (user/group lookups answered by the stub database)" if rs else "")))
 c13.append(job("decode-short","rule","VH_DecodeShort",["C13/"],{"budget_is_violation":1},Q,alloc_cap=65536,loop_cap=3000,bounds="buffers of length 0,1,4,1039,1040,1041,1044 with the scalar header words and the tail symbolic"))
 for c,name in enumerate(["syscall-digits","65-filters","garbage-strings","nil-and-odd","filter-type","big-syscall-numbers"]):
     c13.append(job("build-"+name,"rule","VH_BuildHostile",["C13/"],{"case":c},Q,bounds={"syscall-digits":"syscall given as 0..5 symbolic decimal digits, optionally negative","65-filters":"65 filters + key","garbage-strings":"list/action/field/operator/value replaced by 0..2 symbolic ASCII bytes","nil-and-odd":"nil rule, nil pointers of each type, foreign Rule implementation, DeleteAllRule","filter-type":"symbolic FilterType byte","big-syscall-numbers":"2047, 2048, 2049, 2^31-1, 2^31, 2^32-1, 2^32, -1, 10^20-1"}[name]))
@@ -250,6 +265,7 @@ for n in (0,1,2,63,64,65):
     c06.append(job(f"many-{n}","rule","VH_EncodeMany",["C06/"],{"filters":n,"key":1},Q,bounds=f"{n} pid filters with symbolic values + one key ({n+1} fields)"))
 c06.append(job("many-64-nokey","rule","VH_EncodeMany",["C06/"],{"filters":64,"key":0},Q,bounds="64 filters, no key"))
 c06.append(job("compare","rule","VH_EncodeCompare",["C06/"],{},Q,bounds="-C a<op>b for all 25 UAPI AUDIT_COMPARE_* pairs in both orders x {=, !=} (exhaustive), plus rejected pairs and operators"))
+c06.append(job("build-history","rule","VH_BuildHistory",["C06/"],{},Q,expect=["C06/other-rule-rejected"],bounds="3 rules x 10 other rules (9 rejected at different error exits, after part of the rule was taken in; 1 accepted): Build(rule), Build(other), Build(rule) gives the same bytes"))
 c06.append(job("watch","rule","VH_EncodeWatch",["C06/"],{},Q,bounds="file watches on a file, a directory and a non-existing path with a symbolic leaf (Stat stub), all 16 permission subsets, with/without key"))
 C["C06"]={"jobs":c06,"assumptions":RULE_ASSUME+["UAPI constants and struct offsets come from /usr/include/linux/audit.h of this image via a compiled C program (uapi/extract.py); the field-name -> macro map is transcribed from audit-userspace's fieldtab.h",
    "the Rule struct is built directly (flag text parsing is C07/C14's subject)","the top 16 bits of the last mask word are not constrained for the all-syscalls pattern (kernel syscall-class bits)"],
@@ -266,6 +282,7 @@ for i,sh in enumerate(SHAPES):
         c14.append(job("shape3-"+sh,"rule/flags","VH_Tokens",["C14/"],{"shape":i,"hole":hole,"arghole":3},T,bounds=f"line shape '{sh}' with S/k/w/p arguments of 0..3 symbolic bytes"))
     if "F" in sh or "C" in sh:
         c14.append(job("shape6-"+sh.replace("#","stray"),"rule/flags","VH_Tokens",["C14/"],{"shape":i,"hole":6,"arghole":4},T,bounds=f"line shape '{sh}' with filter text of 0..6 symbolic bytes"))
+c14.append(job("parse-history","rule/flags","VH_ParseHistory",["C14/"],{},Q,expect=["C14/other-line-rejected"],bounds="4 lines x 12 other lines (11 rejected at different places, 1 accepted): Parse(line), Parse(other), Parse(line) give rules that build to the same bytes"))
 C["C14"]={"jobs":c14,"assumptions":PARSE_ASSUME[:2]+["hole bytes are ASCII and free of single quotes, so shell quoting of the assembled line is exact","repeated single-valued flags (-w x -w y, -a .. -a ..) are outside the domain explored: the property does not say whether last-wins is acceptable",
    "filter text is compared after trimming surrounding white space and ignoring white space between field and operator (a parser that trims is not faulted, one that drops non-blank text is)"],
    "outside":["lines with more than 4 flags","filter text longer than 6 symbolic bytes","other quoting styles (double quotes, backslashes) in the assembled line"]}
